@@ -939,6 +939,7 @@ def run_upd(case):
     for o in case['ops']:
         del log[:]
         exn = 0
+        moved = 0     # 1 ran elsewhere before, 2 re-added instance, 3 runs elsewhere after removal
         try:
             if o[0] == 'addh':
                 if o[2] == 'component' and o[1] not in as_comp:
@@ -955,9 +956,11 @@ def run_upd(case):
                 how = o[2] if len(o) > 2 else 0
                 if how == 2 and pool:
                     inst = pool.pop()
+                    moved = 2
                 else:
                     inst = oup_cls()
                     if how == 1:
+                        moved = 1
                         side = desper.World()
                         side.add_processor(inst)
                         side.process(1 / 8)
@@ -968,6 +971,7 @@ def run_upd(case):
                 w.remove_processor(desper.OnUpdateProcessor)
                 if inst is not None:
                     if len(o) > 1 and o[1]:
+                        moved = 3
                         side = desper.World()
                         side.add_processor(inst)
                         side.process(1 / 8)
@@ -977,7 +981,7 @@ def run_upd(case):
                 w.process(o[1] / 8)
         except Exception as ex:
             exn = exn_code(ex)
-        out.append(dict(exn=exn, calls=sorted(log)))
+        out.append(dict(exn=exn, calls=sorted(log), moved=moved))
     return dict(obs=out)
 
 
@@ -1165,7 +1169,9 @@ def stats(cases, traces):
     d = dict(short_on_pending_entity=0, short_while_disabled=0, nonexact_picks=0, reattached=0,
              repeated_reference_reads=0, cases_with_two_worlds=0,
              shorthand_after_change_of_world=0,
-             proto_custom_prefix=0, proto_typeerror=0, upd_frames=0, upd_frames_2plus=0)
+             proto_custom_prefix=0, proto_typeerror=0, upd_frames=0, upd_frames_2plus=0,
+             upd_oup_ran_in_another_world_before=0, upd_oup_instance_readded=0,
+             upd_oup_ran_in_another_world_after_removal=0)
     for c, t in zip(cases, traces):
         kinds[c['kind']] = kinds.get(c['kind'], 0) + 1
         if c['kind'] == 'ctrl' and 'obs' in t:
@@ -1225,6 +1231,10 @@ def stats(cases, traces):
                     d['upd_frames'] += 1
                     if len(ob['calls']) >= 2:
                         d['upd_frames_2plus'] += 1
+                mv = ob.get('moved', 0)
+                if mv:
+                    d[{1: 'upd_oup_ran_in_another_world_before', 2: 'upd_oup_instance_readded',
+                       3: 'upd_oup_ran_in_another_world_after_removal'}[mv]] += 1
     d.update(kinds=kinds, shorthands=shorts,
              proto_sources_methods_named_nullary=combos)
     return d
